@@ -24,6 +24,10 @@ pub fn unhex(s: &str) -> Option<Vec<u8>> {
         .collect()
 }
 
+pub fn json_pub(j: &serde_json::Value, out: &mut String) {
+    json(j, out)
+}
+
 fn json(j: &serde_json::Value, out: &mut String) {
     use serde_json::Value as J;
     match j {
